@@ -70,6 +70,7 @@ def generate(seed, tier, enlarged=False):
          'ts': 1.0, 'clocks': [5.0, 6.0]},
         {'kind': 'engine', 'evs': [[5, [[['p', 'x'], 7]]], [0, [[['p', 'y'], 3]]]], 'ts': 1, 'total': 8},
         {'kind': 'engine', 'evs': [[4, [[['p', 'x'], 50]]]], 'ts': 2, 'total': 8, 'segs': [3, 3, 2]},
+        {'kind': 'engine', 'evs': [[2, [[['p', 'x'], 50]]], [5, [[['p', 'y'], 9]]]], 'ts': 1, 'total': 7, 'rerun': True},
     ]
     for i in range(n):
         r = i % 10
@@ -100,6 +101,8 @@ def generate(seed, tier, enlarged=False):
                     segs.append(rng.randint(1, min(left, 5)))
                     left -= segs[-1]
                 cases[-1]['segs'] = segs
+            if rng.random() < 0.3:
+                cases[-1]['rerun'] = True
     return cases
 
 
@@ -171,16 +174,20 @@ def run_engine(c):
     topology = {'witness': {'p': ('p',), 'q': ('q',)}}
     add_timeline(processes, topology, {
         'timeline': py_timeline(c['evs']), 'time_step': float(c['ts'])})
-    with contextlib.redirect_stdout(io.StringIO()):
-        eng = Engine(processes=processes, topology=topology, emitter='timeseries',
-                     display_info=False, progress_bar=False)
-        for seg in c.get('segs') or [c['total']]:
-            eng.update(seg)
-        data = eng.emitter.get_data()
-    rows = {}
-    for t, row in data.items():
-        rows[str(float(t))] = {'p.x': row['p']['x'], 'p.y': row['p']['y'], 'q.x': row['q']['x']}
-    return {'rows': rows}
+    out = {}
+    # (`rerun`: the same process objects - the same TimelineProcess - take part in a second, fresh simulation)
+    for name in (['rows', 'rows_again'] if c.get('rerun') else ['rows']):
+        with contextlib.redirect_stdout(io.StringIO()):
+            eng = Engine(processes=processes, topology=topology, emitter='timeseries',
+                         display_info=False, progress_bar=False)
+            for seg in c.get('segs') or [c['total']]:
+                eng.update(seg)
+            data = eng.emitter.get_data()
+        rows = {}
+        for t, row in data.items():
+            rows[str(float(t))] = {'p.x': row['p']['x'], 'p.y': row['p']['y'], 'q.x': row['q']['x']}
+        out[name] = rows
+    return out
 
 
 # ------------------------------------------------------------------ oracle
@@ -224,14 +231,18 @@ def oracle(c, ob, rng):
     if c['kind'] == 'engine':
         exp = expected_rows(c)
         # with forced completion the witness may be cut; total is integral so rows are at 0..total
-        got = ob['rows']
-        for t, row in exp.items():
-            if t not in got:
-                continue     # a row is only emitted when something was applied at that time
-            if got[t] != row:
-                msgs.append(('at time %s the driven variables are %r, expected %r from the listing'
-                             % (t, got[t], row), 'engine-trajectory'))
-                break
+        for which in ('rows', 'rows_again'):
+            got = ob.get(which)
+            if got is None:
+                continue
+            for t, row in exp.items():
+                if t not in got:
+                    continue     # a row is only emitted when something was applied at that time
+                if got[t] != row:
+                    msgs.append(('%sat time %s the driven variables are %r, expected %r from the listing'
+                                 % ('second simulation with the same TimelineProcess: ' if which == 'rows_again' else '',
+                                    t, got[t], row), 'engine-trajectory'))
+                    break
     elif c['kind'] == 'init':
         tl = ob['timeline']
         times = [t for t, _ in tl]
